@@ -29,7 +29,7 @@ ANCHORS = ["util/parserestrict.py::parse_match", "util/parserestrict.py::convert
 KINDS = {"ParseError": "ParseError"}
 
 CATS = ["dev-libs", "dev-qt", "dev-lang", "media-sound", "media-libs", "app-a+b", "a", "x11-libs"]
-NAMES = ["alsa-lib", "alsa-utils", "alsa", "qtcore", "qt-core", "boost", "a", "a+", "lib_x", "portage"]
+NAMES = ["alsa-lib", "alsa-utils", "alsa", "qtcore", "qt-core", "boost", "a", "A", "a+", "lib_x", "portage"]
 VERSIONS = ["1", "1.1.7", "1.1.6", "1.1.8", "2.0", "1.60.0", "1.2_rc1", "10", "1.1.7_p1"]
 REVS = ["", "", "", "-r1", "-r0", "-r2"]
 SLOTS = ["0", "5", "1.2", "0a", "5.15"]
@@ -380,6 +380,12 @@ def main(chk: Check):
     chk.lint(["C44"])
     chk.check_fingerprint(ANCHORS)
     rng = chk.rng
+    import os
+
+    def budget(q, t):
+        """VERIF_C44_QUICK=1 pins the quick budgets (mutation self-tests: a changed fingerprint
+        would otherwise escalate to the thorough ones)"""
+        return q if os.environ.get("VERIF_C44_QUICK") == "1" and not chk.thorough else chk.n(q, t)
     import time as _t
     _t0 = _t.time()
 
@@ -388,7 +394,7 @@ def main(chk: Check):
 
     lap("build")
     # ---- pool
-    pool_args = gen_pool(rng, chk.n(36, 60))
+    pool_args = gen_pool(rng, budget(36, 60))
     pool = [mk_pkg(a) for a in pool_args]
     pool_f = [pkg_fields(p) for p in pool]
     pool_def = "Definition pool : list package := " + clist([c_pkg(f) for f in pool_f], "package") + ".\n"
@@ -405,7 +411,7 @@ def main(chk: Check):
         for f in sorted(cdir.glob("*.json")):
             for t in json.loads(f.read_text()).get("texts", []):
                 texts.append((t, None, "corpus"))
-    n_valid = chk.n(520, 6000)
+    n_valid = budget(520, 6000)
     while sum(1 for x in texts if x[2] == "valid") < n_valid:
         g = gen_text(rng, pool_f)
         if g is None:
@@ -414,7 +420,7 @@ def main(chk: Check):
         if rng.random() < 0.05:
             t = rng.choice([" ", "\t", "\n", "  "]) + t + rng.choice(["", " ", "\n"])
         texts.append((t, fields, "valid"))
-    n_mal = chk.n(260, 3000)
+    n_mal = budget(260, 3000)
     valid_texts = [x[0] for x in texts if x[2] == "valid"]
     for _ in range(n_mal):
         texts.append((mutate(rng, rng.choice(valid_texts)), None, "malformed"))
@@ -459,7 +465,7 @@ def main(chk: Check):
     gl_cases, gl_bad = [], []
     galpha = "ab-+.,_1*"
     vals = sorted({f[k] for f in pool_f for k in ("cat", "pkg", "slot", "subslot")})
-    for _ in range(chk.n(500, 6000)):
+    for _ in range(budget(500, 6000)):
         v = rng.choice(vals) if rng.random() < 0.6 else "".join(rng.choice("ab-+.,_1") for _ in range(rng.randrange(6)))
         if rng.random() < 0.7:
             p = globs_of(rng, v) if v else "*"
@@ -492,7 +498,8 @@ def main(chk: Check):
         import concurrent.futures as cf
         with cf.ThreadPoolExecutor(max_workers=2) as ex:      # the two streams evaluate concurrently
             fq = ex.submit(chk.coq_eval, "query", IMPORTS, "str", cases,
-                           ["mismatches (run_case pool) cases", "mismatches (run_case_orig pool) cases",
+                           ["where_ (fun i r => negb (struct_eqb (run_case pool i) r)) cases",
+                            "where_ (fun i r => negb (struct_eqb (run_case_orig pool i) r)) cases",
                             "where_ (fun i r => negb (spec_case_ok pool i r)) cases"], 450, pool_def)
             fg = ex.submit(chk.coq_eval, "glob", IMPORTS, "str * str", gl_cases,
                            ["mismatches run_glob cases", "where_ (fun i r => negb (spec_glob_ok i r)) cases"], 600)
